@@ -193,6 +193,11 @@ def replay_one(item):
     # evaluation of the simplified form
     try:
         f1 = exprs.with_timeout(20, ev.compile, s, _simplify=False, _optimize=False, stats=False)
+    except exprs.Timeout:
+        # the simplification itself has terminated; the time compile() takes is not the subject of C01 (a starved worker on
+        # an overloaded machine ends up here): counted, not judged
+        out.update(status='compile-timeout')
+        return out
     except BaseException as ex:
         out.update(status='exception', key='exception:compile-simplified:' + type(ex).__name__, detail=repr(ex)[:300])
         return out
@@ -325,7 +330,16 @@ def run(rep):
             rep.extra.setdefault('oracle_disagreements', []).append(dict(program=p, got=o.get('got'), want=o.get('want')))
         elif st == 'orig-compile-failed':
             rep.skip('original program does not compile unsimplified (judged by C02)')
+        elif st == 'compile-timeout':
+            rep.skip('compiling the simplified form exceeded the watchdog (not judged)')
         elif st in ('nonterm', 'exception'):
+            # confirm in this (serial) process with a three times larger budget: a watchdog that fired in a starved worker
+            # of an overloaded machine must not become a verdict
+            if o.get('detail', '').startswith('simplification did not finish') or 'Timeout' in o.get('key', ''):
+                o2 = replay_one((p, items[i][1], 30))
+                if o2['status'] != st:
+                    rep.skip('watchdog fired in a worker but the outcome was not reproduced serially (not judged)')
+                    continue
             small = shrink_failure(p, st)
             key = '{}:{}'.format('nonterm' if st == 'nonterm' else o['key'].rsplit(':', 1)[0], exprs.skeleton(small))
             rep.violation(key, ('simplification does not terminate: ' if st == 'nonterm' else 'simplification raises: ') + o['detail'],
